@@ -19,7 +19,7 @@ REQUIRED = [f"contract:NonnegMean.{t}" for t in nn.TESTS] + ["stratum:len1", "st
                                                              "stratum:m_above_u", "stratum:m_below_0",
                                                              "random_order_false", "stratum:nondyadic_runs", "stratum:long_sample", "stratum:exact_hit_then_zero_then_nondyadic", "integer_dtype_samples", "object_warmed_up_with_another_N", "object_built_with_another_u",
             "object_used_on_another_sample_first", "calls_with_boundary_tolerances_passed_by_the_caller",
-            "single_precision_samples"]
+            "single_precision_samples", "samples_with_negative_zero"]
 ASSUMPTIONS = ["samples are numpy arrays of floats in [0,u] (dyadic in the boundary strata, runs of non-representable values in the nondyadic stratum); documented exclusions: finite-N SPRT with "
                "random_order=False (raises by design), Kaplan-Markov/Wald with finite N",
                "numpy/pandas are trusted"]
@@ -121,6 +121,11 @@ def run_shard(spec, rec):
         st, x = nn.gen_sample(rng, cfg, stratum=st, nondyadic=(1.0 if i % 7 == 6 else 0.0))
         if not nn.in_domain(cfg, x):
             continue
+        if i % 17 == 16 and any(v == 0 for v in x):
+            # the value zero in its other floating-point representation (the result of rounding a tiny negative number,
+            # or of -1 * 0.0): it equals 0 and is a legitimate observation
+            x = [(-0.0 if v == 0 else v) for v in x]
+            rec.count("samples_with_negative_zero")
         case = {"cfg": cfg, "x": x, "stratum": st}
         if i % 13 == 12 and not cfg.get("int_dtype"):
             cfg["float_dtype"] = "float32"
